@@ -20,6 +20,37 @@ CHECKS = {
         note="Trusted: Coq kernel; extraction (ExtrOcamlBasic); the restatement of str::lines/trim_end/char::is_whitespace; "
              "K4/K5 are differential tests (sampled). No axioms (Print Assumptions: closed).",
         design="§4 C11"),
+    "C14": dict(
+        technique="Coq proofs (list induction over inputs/histories) over a Gallina state-machine model of the CLI with an arbitrary formatter F "
+                  "+ generated option/clap facts (CliGen.v) + differential correspondence of the extracted model with the real binary on generated file trees",
+        text="Closed theorems over Cli.run for EVERY formatter F, file system, invocation shape, style options and history: check mode leaves the "
+             "file system untouched, issues no write event and prints no formatter output (C14_check_mode_read_only, C14_check_history_read_only); "
+             "exit = 1 iff some readable well-formed input differs from F's output or an I/O error occurred, for file lists, format-all and stdin "
+             "(C14_check_exit_*); --check with --inplace is rejected (taken from the regenerated CliGen.v). The model is tied to main.rs/fmt.rs/cli.rs "
+             "by K8: the real binary vs the extracted model on generated trees and invocation sequences (contents, mtimes, stdout, exit code).",
+        note="Trusted: Coq kernel; gen_cli.py; extraction; the abstract file system (no permissions/symlinks/races/disk-full: runtime behaviour the model "
+             "cannot exhibit - partial there); K8 is sampled differential testing. No axioms.",
+        design="§4 C14"),
+    "C15": dict(
+        technique="Coq proofs over the CLI state-machine model (write-event discipline invariant by induction over the input list; isolation of failing inputs) "
+                  "+ differential correspondence with the real binary",
+        text="Closed theorems for EVERY formatter F and file system: in -i and format-all every write event targets a visited eligible path, writes exactly "
+             "F cfg (old content) and only when it differs; the final file system is the initial one with exactly these writes; every other path keeps its node; "
+             "format-all eligibility is regular *.typ files at or below the root with no hidden component BELOW the root (C15_walk_eligibility); a failing input "
+             "changes nothing but the error count wherever it stands and forces exit 1 (C15_failing_input_is_isolated). Tied to the code by K8 (contents, mtimes, exit).",
+        note="Trusted as C14. Repairs a8e4d33 (hidden root) and 3f7329d (swallowed I/O errors) were needed for the property to hold; recorded in known_findings.json as fixed. "
+             "'A second run is a no-op' additionally needs idempotence of F (C03, not claimed); K8 exercises repeated invocations.",
+        design="§4 C15"),
+    "C16": dict(
+        technique="Coq proofs over the CLI model + theorems about the option map regenerated from cli.rs/fmt.rs/config.rs on every run (translator) "
+                  "+ differential correspondence with the real binary",
+        text="Closed theorems: plain mode prints, in argument order, exactly F cfg c (c itself when erroneous) and touches nothing; stdin likewise; "
+             "format_with_width s w = F {default with max_width := w} s or s on error; to_config maps column/tab_width/reorder to max_width/tab_spaces/"
+             "reorder_import_items and leaves the rest at Config::default, clap defaults are 80/2/false - statements about gen/CliGen.v, which is REGENERATED "
+             "from the Rust sources on every run, so clamping or dropping an option breaks the proof itself. K8 compares the binary's stdout/in-place results "
+             "with the library's for column in [0,400], tab in [0,16], reorder on/off, and omitted options.",
+        note="Trusted as C14 plus the regex translator gen_cli.py (fails closed: unknown shapes become the unbound identifier Unrecognised).",
+        design="§4 C16"),
 }
 
 NOT_APPLICABLE = {
